@@ -360,8 +360,48 @@ def r2(ctx):
               "at least one parent lookup can run with the empty key" if any_unguarded else
               "every parent lookup runs only while the key is non-empty, so an entry at the empty key is never considered a parent: " + "; ".join(detail),
               sites[0][2]["sp"])
+    # parents() evaluated (K6' with an abstract Vec<u8> key): which keys are looked up, with deletion markers included,
+    # and in which order the hits are returned
+    from . import feval as E, coll
+    pb = f.body("store::fs::parents")
+    ctx.touch(*f.scope(pb.path, prefix="store::fs::"))
+    C = coll.Collections(f)
+    for key, present in (([7, 8, 9], {(): "e0", (7, 8): "e2", (7, 8, 9): "e3"}), ([7], {(7,): "e1"}), ([], {(): "e0"}), ([5, 6], {}), ([5, 6], {(5,): "err"})):
+        looks = []
+
+        def oracle(kind, name, payload, site, present=present):
+            if kind != "call":
+                return None
+            t, args, it = payload
+            if callee_matches(t, r"store::fs::get_exact$"):
+                kv = it.resolve(it.deref_val(args[3]))
+                if not coll.is_seq(kv):
+                    raise E.Unsupported("parent lookup with a key that is not the shrinking key buffer")
+                k = tuple(x[1] for x in kv[2])
+                inc = it.deref_val(args[4])
+                looks.append((k, inc[1] if E.is_int(inc) else None))
+                hit = present.get(k)
+                if hit == "err":
+                    return E.Err(E.Tok("storage-error"))
+                return E.Ok(E.Some(E.Tok(hit))) if hit else E.Ok(E.NONE)
+            return C.handle(kind, name, payload, site)
+        try:
+            ret, it_ = E.run_it(f, pb.path, [E.href("table"), E.Tok("ns"), E.Tok("author"), coll.seq("vec", [E.Int(x) for x in key])], {"table": E.Tok("records")}, oracle)
+            got = coll.render(it_, ret, f)
+        except E.Unsupported as ex:
+            got = "UNSUPPORTED-FORM: %s" % ex
+        prefixes = [tuple(key[:n]) for n in range(len(key), -1, -1)]
+        want_hits = []
+        for n in range(0, len(key) + 1):
+            h = present.get(tuple(key[:n]))
+            if h:
+                want_hits.append("Err(storage-error)" if h == "err" else "Ok(%s)" % h)
+        want = "[%s]" % ",".join(want_hits)
+        ok = sorted(looks) == sorted((k, 1) for k in prefixes) and got == want
+        ctx.check(ok, "C02.R2b", pb.path, "parents[key=%s,stored=%s]" % (key, sorted(present)),
+                  "looks up %s and returns %s; spec: every prefix of the key down to the empty key is looked up once, deletion markers included (include_empty = true), hits returned shortest prefix first: %s" % (looks, got, want), pb.sp)
     ctx.floor("C02.R2a", 1)
-    ctx.floor("C02.R2b", 1)
+    ctx.floor("C02.R2b", 5)
 
 
 SHORTEN = {"pop", "truncate", "split_off", "drain", "remove", "clear", "resize", "set_len", "shrink_to", "retain", "split_last", "strip_suffix", "rposition", "split_at", "get", "index", "take"}
